@@ -33,6 +33,7 @@ ASSUMPTIONS = [
     "planned child duration > timeout + poll + slack => not Ok); near the boundary both outcomes are accepted",
 ]
 COQ_TIMEOUT = 1500
+CAN_RUN_WITHOUT_MODEL = True      # the property oracle needs only the harness and the helper child
 
 HELPER_SRC = os.path.join(common.HARNESS, "helpers", "c16_child.rs")
 SLACK_MS = 400          # scheduling slack granted to a loaded machine when judging timing
@@ -184,7 +185,7 @@ def gen_cases(env, searching):
                         poll=rng.choice([1, 10, 50]), dur=dur)
     if thorough:
         # big transfers through a full pipe: the child blocks until the reader drains or stops
-        for cap in (200000, 1048576):
+        for cap in (150000, 300000):
             for n in (cap, cap + 1):
                 add("c", "c", cap, n, "a", 100, "a", 0, "oe")
                 add("c", "c", cap, 100, "a", n, "u", 0, "eo")
@@ -411,7 +412,7 @@ def correspond(env, searching=False, model=True):
     return {
         "evaluations": len(obs),
         "distinct_nontrivial": len(nontrivial),
-        "rule": "helper child driven through the real runtime: sizes 0/cap-1/cap/cap+1/cap+8192+-1 for caps 0..10000 (thorough: ..1 MiB), "
+        "rule": "helper child driven through the real runtime: sizes 0/cap-1/cap/cap+1/cap+8192+-1 for caps 0..10000 (thorough: ..300000), "
                 "nine stdout/stderr policy combinations, exit codes 0/1/2/7/127/255/signal, ASCII / multi-byte / invalid UTF-8, "
                 "write order and splitting, SIGPIPE default or ignored, sleeps before/between/after the writes with timeout_ms "
                 "around the child's duration, poll 1..50 ms, each case unpinned and pinned to one CPU; non-trivial = distinct case "
